@@ -767,6 +767,8 @@ class Interp:
       return Opaque('re')
     if fname.startswith('logging.'):
       return None
+    if fname in ('np.array', 'np.asarray', 'numpy.array', 'numpy.asarray') and args and not kwargs:
+      return args[0]  # transparent for folded scalars / lists
     if fname == 'itertools.groupby' and args and not isinstance(args[0], Opaque):
       keyf = kwargs.get('key') if 'key' in kwargs else (args[1] if len(args) > 1 else None)
       out = []
